@@ -16,7 +16,7 @@ from cgroup import Case
 
 
 class CompilerProp:
-    def __init__(self, pid: str, gen: Callable, judge: Callable, n_quick: int, n_thorough: int, with_query=True, how: str = "", after: Optional[Callable] = None, nontrivial: Optional[Callable] = None, use_gxx: bool = False, gxx_also: Optional[Callable] = None):
+    def __init__(self, pid: str, gen: Callable, judge: Callable, n_quick: int, n_thorough: int, with_query=True, how: str = "", after: Optional[Callable] = None, nontrivial: Optional[Callable] = None, use_gxx: bool = False, gxx_also: Optional[Callable] = None, parse_tie: bool = True):
         self.pid = pid
         self.gen = gen
         self.judge = judge
@@ -26,6 +26,8 @@ class CompilerProp:
         self.after = after
         self.use_gxx = use_gxx
         self.gxx_also = gxx_also  # further cases that must go through g++ (e.g. programs the static checker rejects)
+        self.parse_tie = parse_tie  # compare tools/cparse.py with the Lean parser (Cpp/Parse.lean, parse_render) on every program
+        self._programs: List[Any] = []
         self.nontrivial = nontrivial or cgroup.nontrivial
         self.how = how or "translate `source` (plus the synthetic metadata of tools/qgen.py) on `backend` through apply_ast_transformations + write_cpp_files; run the emitted per-event code on `events`"
 
@@ -75,6 +77,8 @@ class CompilerProp:
             cgroup.count_case(ctx, c)
             if not c.result["ok"]:
                 ctx.count("refused:" + c.result["error"])
+            elif self.parse_tie:
+                self._programs.append((c.backend, c.source(), c.result))
             hit = self.judge(c)
             first = ((c.answer or {}).get("exec") or [{}])[0]
             ctx.case(c.key(), self.nontrivial(c), {"backend": c.backend, "query": c.source(), "first_event": first})
@@ -113,6 +117,19 @@ class CompilerProp:
             self.stream(ctx, [self.gen(ctx, i + k) for k in range(m)], "generated")
             i += m
         ctx.extra_cov["exhaustive"] = False
+        self.run_parse_tie(ctx)
+
+    def run_parse_tie(self, ctx):
+        """N-version tie of the text reader: every program this check interpreted was parsed by tools/cparse.py; the Lean
+        parser (whose round trip with the printer is the theorem C02.parse_render) must produce the same tree."""
+        if not self.parse_tie or not self._programs:
+            return
+        import c02_parsetie
+
+        progs, self._programs = self._programs, []
+        st = c02_parsetie.run_stream(ctx, progs, 0, report=True)
+        ctx.count("parse-tie:programs(cparse.py vs Lean parser)", len(progs))
+        ctx.count("parse-tie:disagreements", st.get("disagreements", 0))
 
     # ------------------------------------------------------------------ search / replay
     def search(self, ctx, broken):
